@@ -225,6 +225,17 @@ impl QueryHashCache {
         let exact_lookup = {
             let state = self.state.read();
             match state.cache.get(&query_key) {
+                // The key is only a 64-bit hash of the quantized query (and the quantization
+                // saturates), so different queries can share it: an entry is an exact hit only
+                // if it was stored for this very query.
+                Some(_)
+                    if !state
+                        .query_embeddings
+                        .get(&query_key)
+                        .is_some_and(|stored| Self::is_same_query(stored, query_embedding)) =>
+                {
+                    ExactLookup::Miss
+                }
                 Some(cached) if cached.requested_k >= k => {
                     let take = k.min(cached.results.len());
                     ExactLookup::Hit(cached.results[..take].to_vec())
@@ -798,6 +809,19 @@ impl QueryHashCache {
         }
 
         hasher.finish()
+    }
+
+    /// True if `stored` is bit-for-bit the query vector `query`.
+    fn is_same_query(stored: &[f32], query: &[f32]) -> bool {
+        if stored.len() != query.len() {
+            return false;
+        }
+        for i in 0..stored.len() {
+            if stored[i].to_bits() != query[i].to_bits() {
+                return false;
+            }
+        }
+        true
     }
 
     /// Find similar query using cosine similarity
